@@ -71,7 +71,8 @@ structure Req (m : Msg) (b e0 : Int) : Prop where
   end_ : ∃ v, m.get? tEndSeqNo = some v ∧ pyInt v = some e0
 
 theorem resendBody_head (env : Env) (sr : Msg → Bool) (m : Msg) (c : Conn) (b e0 : Int)
-    (hreq : Req m b e0) (hin : InResend c) :
+    (hreq : Req m b e0)
+    (hin : c.state = st_RESENDREQ_HANDLING ∨ c.state = st_RESENDREQ_AWAITING) :
     resendBody env sr m c =
       (let e := if e0 == 0 then sysMaxsize else e0
        if b < 1 || b ≥ c.sess.nextOut then
@@ -89,7 +90,7 @@ theorem resendBody_head (env : Env) (sr : Msg → Bool) (m : Msg) (c : Conn) (b 
   obtain ⟨vb, hb1, hb2⟩ := hreq.begin_
   obtain ⟨ve, he1, he2⟩ := hreq.end_
   have hst : (c.state == st_RESENDREQ_HANDLING || c.state == st_RESENDREQ_AWAITING) = true := by
-    rcases hin.1 with h | h <;> simp [h]
+    rcases hin with h | h <;> simp [h]
   unfold resendBody
   simp only [M.bind_apply, hreq.mtype, beq_self_eq_true, M.assert_true_apply, M.get_apply, hst, Msg.get,
     hb1, he1, M.liftE_apply, M.int_apply_of hb2, M.int_apply_of he2, List.nil_append]
@@ -121,7 +122,7 @@ theorem resendBody_valid (env : Env) (sr : Msg → Bool) (m : Msg) (c : Conn) (b
       (∀ p ∈ sent, RowOK p.1 p.2 ∧ b ≤ p.1) := by
   have hcond : (decide (b < 1) || decide (b ≥ c.sess.nextOut)) = false := by
     simp; omega
-  rw [resendBody_head env sr m c b e0 hreq hctx.inres]
+  rw [resendBody_head env sr m c b e0 hreq hctx.inres.1]
   simp only [hcond, Bool.false_eq_true, if_false]
   -- first set_seq_num
   have e1 := setSeqNum_out b (by omega) c
